@@ -6,5 +6,6 @@ CONSTANTS
   MaxTrav = 1
 CONSTRAINT Bound
 CONSTANT HiddenSets <- AllHidden
+CONSTANT ClassMaps <- MixedMap
 VIEW MCView
-INVARIANTS TypeOK HiddenNeverSeen ExactlyOnceNoMutation StableExactlyOnce StrictlyIncreasing NoDuplicates EndsWithEmptyCursor BadCursorRejected PageShape IndexFresh ProbesOK WalkOK
+INVARIANTS TypeOK HiddenNeverSeen ExactlyOnceNoMutation StableExactlyOnce StrictlyIncreasing NoDuplicates EndsWithEmptyCursor BadCursorRejected PageShape IndexFresh EndClassExplicit ProbesOK WalkOK
